@@ -327,6 +327,16 @@ func runC08(t *testing.T, tape *sim.Tape, tier string) *Outcome {
 		for i := 0; i < n; i++ {
 			r := genAuthReq(tape, pw, j, i)
 			ac.reqs = append(ac.reqs, r)
+			if tape.Draw(8, "nested") == 7 {
+				// the same request framed as an array nested in a one- or two-element array (the server executes the inner one)
+				outer := []resp.Value{resp.Ar(r.Args...)}
+				if tape.Draw(2, "nestedtail") == 1 {
+					outer = append(outer, resp.Bs("tail"))
+				}
+				items = append(items, resp.Ar(outer...).Encode())
+				o.stat("requests_in_nested_framing", 1)
+				continue
+			}
 			items = append(items, resp.Ar(r.Args...).Encode())
 		}
 		if withTLS && tape.Draw(2, "viatls") == 1 {
